@@ -34,7 +34,7 @@ from vlib.core import MachineryError
 
 PKG = "x06"
 
-PROPERTIES = ("Convergence OrderIndependence RejectedNeverInState BanHolds OwnSendsAccepted OwnPrevsAccepted "
+PROPERTIES = ("Convergence OrderIndependence RejectedNeverInState BanHolds BanHoldsStrict OwnSendsAccepted OwnPrevsAccepted "
               "HonestRoomsAgree BadNeverAccepted")
 SANITY = "TypeOK TipsAreFrontier AuthKnown HandoverClean"
 
@@ -49,8 +49,9 @@ FAULTS = [
 
 
 def cfg_text(ver, maxfree, n=2, byz="NoByz", maxbad=0, kinds="AllKinds", mode="cover", gap=False, late=False,
-             ts="TS1", iddesc=False, fault="none", invariants=None, cur=False, bob=0):
-    inv = invariants or ("%s %s%s Emit" % (SANITY, PROPERTIES, " CurIsResolved" if cur else ""))
+             ts="TS1", iddesc=False, fault="none", invariants=None, cur=False, bob=0, strictban=True):
+    inv = invariants or ("%s %s%s Emit" % (SANITY, PROPERTIES if strictban else PROPERTIES.replace(" BanHoldsStrict", ""),
+                                          " CurIsResolved" if cur else ""))
     return ("SPECIFICATION GSpec\nCONSTANTS\n  Start = 1\n  Ver = \"%s\"\n  MaxFree = %d\n  ForkFrom = 1\n  TSChoices <- %s\n"
             "  IdDesc = %s\n  Addl = {}\n  MaxBad = %d\n  Dishonest = %s\n  NServers = %d\n  Byz <- %s\n  Fault = \"%s\"\n"
             "  Gap = %s\n  LateJoin = %s\n  BobLevel %s\n  SendKinds <- %s\n  Mode = \"%s\"\n%sINVARIANTS %s\nCHECK_DEADLOCK FALSE\n"
@@ -73,28 +74,28 @@ def plans(tier):
         return P
     for ver in ("10", "12"):
         P += [(("v%s" % ver), dict(ver=ver, maxfree=2), 0, 0, ""),
-              (("v%s-ts" % ver), dict(ver=ver, maxfree=2, kinds="FaultKinds" if ver == "10" else "PowerKinds", ts="TS12"), 0, 0, ""),
-              (("v%s-byz" % ver), dict(ver=ver, maxfree=2, byz="Byz2", maxbad=1, kinds="ByzKinds"), 0, 0, ""),
-              (("v%s-3servers" % ver), dict(ver=ver, maxfree=2, n=3, kinds="PowerKinds" if ver == "10" else "FaultKinds"), 0, 0, ""),
+              # (room version 12: with a moderator on the byzantine server)
+              (("v%s-byz" % ver), dict(ver=ver, maxfree=2, byz="Byz2", maxbad=1, kinds="ByzKinds", bob=3 if ver == "12" else 0), 0, 0, ""),
+              (("v%s-3servers" % ver), dict(ver=ver, maxfree=2, n=3, kinds="FaultKinds"), 0, 0, ""),
               (("v%s-gap" % ver), dict(ver=ver, maxfree=2, kinds="CoreKinds", gap=True, cur=True), 0, 0, "")]
         # bob is a moderator: both servers send power events, the order state resolution replays them in matters
-        P += [(("v%s-mod" % ver), dict(ver=ver, maxfree=2, kinds="CoreKinds", bob=3), 0, 0, ""),
-              (("v%s-mod-byz" % ver), dict(ver=ver, maxfree=2, byz="Byz2", maxbad=1, kinds="ByzKinds", bob=3), 0, 0, "")]
+        P += [(("v%s-mod" % ver), dict(ver=ver, maxfree=2, kinds="CoreKinds", bob=3), 0, 0, "")]
+    P += [("v12-ts", dict(ver="12", maxfree=2, kinds="FaultKinds", ts="TS12"), 0, 0, "")]
     for ver in ("1", "6", "11"):
-        P += [(("v%s" % ver), dict(ver=ver, maxfree=2, kinds="CoreKinds"), 0, 0, ""),
-              (("v%s-mod" % ver), dict(ver=ver, maxfree=2, kinds="ResKinds", bob=3), 0, 0, ""),
+        P += [(("v%s" % ver), dict(ver=ver, maxfree=2, kinds="CoreKinds", bob=3 if ver == "1" else 0), 0, 0, ""),
+
               (("v%s-byz" % ver), dict(ver=ver, maxfree=2, byz="Byz2", maxbad=1, kinds="FaultKinds", cur=True), 0, 0, "")]
     P += [
         # later events get the smaller event-ID / SHA-1 ranks (tie-breaks the other way round)
         ("v10-iddesc", dict(ver="10", maxfree=2, kinds="PowerKinds", iddesc=True), 0, 0, ""),
         ("v1-iddesc", dict(ver="1", maxfree=2, kinds="PowerKinds", iddesc=True), 0, 0, ""),
         # three events beyond the prefix on two servers
-        ("v10-3events", dict(ver="10", maxfree=3, kinds="FaultKinds", bob=3), 0, 0, ""),
+        # (with a moderator on the second server the strict form of BanHolds is refuted here: see below)
+        ("v10-3events", dict(ver="10", maxfree=3, kinds="TwoKinds", bob=3, strictban=False), 0, 0, ""),
         # a byzantine third server next to two honest ones
-        ("v10-3servers-byz", dict(ver="10", maxfree=2, n=3, byz="Byz3", maxbad=1, kinds="FaultKinds"), 0, 0, ""),
-        ("v12-3servers-byz", dict(ver="12", maxfree=2, n=3, byz="Byz3", maxbad=1, kinds="FaultKinds", gap=True), 0, 0, ""),
+        ("v12-3servers-byz", dict(ver="12", maxfree=2, n=3, byz="Byz3", maxbad=1, kinds="FaultKinds"), 0, 0, ""),
         # the third server joins while the others are already sending
-        ("v10-latejoin", dict(ver="10", maxfree=2, n=3, kinds="FaultKinds", late=True, cur=True), 0, 0, ""),
+        ("v10-latejoin", dict(ver="10", maxfree=2, n=3, kinds="BanKinds", late=True, cur=True), 0, 0, ""),
         # every interleaving as a behaviour of its own
         ("v10-paths", dict(ver="10", maxfree=2, kinds="FaultKinds", mode="paths", gap=True), 0, 0, ""),
         ("v12-paths-byz", dict(ver="12", maxfree=2, byz="Byz2", maxbad=1, kinds="FaultKinds", mode="paths"), 0, 0, ""),
@@ -102,9 +103,9 @@ def plans(tier):
         ("v10-loader", dict(ver="10", maxfree=2, kinds="CoreKinds"), 0, 0, "loader"),
         ("v12-byz-loader", dict(ver="12", maxfree=2, byz="Byz2", maxbad=1, kinds="FaultKinds"), 0, 0, "loader"),
         # longer histories on three servers, sampled
-        ("v10-sim", dict(ver="10", maxfree=4, n=3, mode="paths", gap=True, late=True, ts="TS12"), 240, 40, ""),
-        ("v12-sim-byz", dict(ver="12", maxfree=4, n=3, byz="Byz3", maxbad=2, mode="paths", gap=True), 240, 40, ""),
-        ("v1-sim", dict(ver="1", maxfree=4, n=3, mode="paths", ts="TS12"), 160, 40, ""),
+        ("v10-sim", dict(ver="10", maxfree=4, n=3, mode="paths", kinds="CoreKinds", gap=True, late=True, ts="TS12", bob=3, strictban=False), 120, 40, ""),
+        ("v12-sim-byz", dict(ver="12", maxfree=4, n=3, byz="Byz3", maxbad=2, mode="paths", kinds="CoreKinds", gap=True), 120, 40, ""),
+        ("v1-sim", dict(ver="1", maxfree=4, n=3, mode="paths", kinds="CoreKinds", ts="TS12", bob=3, strictban=False), 80, 40, ""),
     ]
     return P
 
@@ -239,7 +240,7 @@ def run(ctx):
         jobs.append((name, cfg, kw, sim, depth, hmode))
     ctx.notes["plans"] = [[name, kw, sim] for name, _, kw, sim, _, _ in jobs]
 
-    par = 2
+    par = 2 if quick else 3
     per = max(2, ctx.workers // par)
 
     def one(job):
@@ -276,9 +277,11 @@ def run(ctx):
                 raise MachineryError("Fed_gen %s emitted no behaviour (dead generator)" % name)
             c = collections.Counter()
             census(recs, c, kw.get("mode") == "paths")
-            need = REQUIRED + (REQUIRED_GAP if kw.get("gap") else ()) + (REQUIRED_MERGE if kw.get("maxfree", 0) >= 3 else ())
-            if kw.get("byz", "NoByz") != "NoByz":
-                need += REQUIRED_BYZ + REQUIRED_STALE
+            need = REQUIRED + (REQUIRED_MERGE if kw.get("maxfree", 0) >= 3 else ())
+            if not sim:     # (a random sample is not asked to contain every class)
+                need += REQUIRED_GAP if kw.get("gap") else ()
+                if kw.get("byz", "NoByz") != "NoByz":
+                    need += REQUIRED_BYZ + REQUIRED_STALE
             missing = [k for k in need if not c[k]]
             if missing:
                 raise MachineryError("vacuous generation (%s): no emitted behaviour ends in / contains %s" % (name, ", ".join(missing)))
@@ -303,6 +306,20 @@ def run(ctx):
                                  % (fault, inv, fr.violated))
     ctx.states, ctx.transitions = states0, trans0      # refutation runs stop at the first counterexample
     ctx.notes["planted_model_faults_caught"] = ["%s->%s" % f for f in faults]
+
+    # a statement about the DESIGN (never a verdict about the code): the strict form of BanHolds - "banned at every
+    # extremity => banned in the resolved state" - is not a theorem of state resolution v2
+    if not quick:
+        name = "Fed_strictban.cfg"
+        with open(os.path.join(d, name), "w") as f:
+            f.write(cfg_text("10", 3, kinds="TwoKinds", bob=3, mode="none", invariants="BanHoldsStrict"))
+        sr = ctx.tlc("Fed_gen", name, allow_violation=True, expect_records=False, workers=8, timeout=900)
+        ctx.notes["ban_strict_form"] = (
+            "TLC refutes BanHoldsStrict with three events beyond the prefix and a moderator on the second server (bob bans "
+            "alice, bans her again on one branch, the creator bans bob on the other: both bans fail in resolution, alice is "
+            "left without membership); the weak form BanHolds is an invariant of every plan"
+            if sr.violated == "BanHoldsStrict" else "BanHoldsStrict holds within Fed_strictban.cfg (%s)" % sr.violated)
+        ctx.states, ctx.transitions = states0, trans0
 
     # code -> spec
     if quick:
